@@ -28,7 +28,7 @@ ASSUMPTIONS = ["payoff reference formulas written independently in the oracle",
                "moments compared with rtol 1e-9 (different summation order allowed)",
                "control-variate regression compared only when the controls' covariance is well conditioned"]
 TIERS = {
-    "quick": {"worlds": 700, "wall": 520, "shrink_budget": 60,
+    "quick": {"worlds": 1000, "wall": 520, "shrink_budget": 60,
               "required_probes": ["c05.run_completed", "c05.level_added_late", "c05.multi_pass", "c05.with_controls",
                                   "c05.pool_run", "c05.fixed_variant", "c05.real_coupling_run"]},
     "thorough": {"worlds": 30000, "wall": 3300, "shrink_budget": 150,
